@@ -10,6 +10,8 @@ struct Outcome {
     bool has_err = false;
     double e2 = 0, einf = 0;
     int n = 0;
+    std::vector<double> rnorms;                      // residual norm recorded before every cycle (guarded hook)
+    std::vector<std::pair<double, double>> errs;     // exact errors recorded before every cycle
 };
 
 static Outcome observe(GMGPolar& g, const SolverConfig& cfg)
@@ -28,13 +30,16 @@ static Outcome observe(GMGPolar& g, const SolverConfig& cfg)
             o.einf = *b;
         }
     }
+    o.rnorms = GMGPolarVerifAccess::residual_norms(g);
+    o.errs   = GMGPolarVerifAccess::exact_errors(g);
     return o;
 }
 static bool same_bits(double a, double b) { return std::memcmp(&a, &b, sizeof(double)) == 0; }
 
 static void mutate_solve_options(Rng& rng, SolverConfig& c, std::string& what)
 {
-    switch (rng.range(0, 7)) {
+    switch (rng.range(0, 8)) {
+    case 8: c.norm = (c.norm + rng.range(1, 2)) % 3; what = "norm"; break; // always another norm type
     case 0: c.maxIterations = rng.pick({1, 2, 3, 5, 150, 150}); what = "maxIterations"; break;
     case 1: c.rel_tol = rng.pick({1e-4, 1e-6, 1e-8, 1e-10, -1.0}); what = c.rel_tol > 0 ? "relativeTolerance" : "relativeTolerance-disabled"; break;
     case 2: c.abs_tol = rng.pick({1e-6, 1e-8, 1e-10, -1.0}); what = c.abs_tol > 0 ? "absoluteTolerance" : "absoluteTolerance-disabled"; break;
@@ -221,6 +226,17 @@ static void run_case(CaseCtx& c)
             c.obs.require("error_presence_equals_fresh", reused.has_err == fr.has_err, cls);
             if (reused.has_err && fr.has_err)
                 c.obs.require("exact_errors_equal_fresh", same_bits(reused.e2, fr.e2) && same_bits(reused.einf, fr.einf), cls);
+        }
+        {
+            // the recorded histories themselves (lengths and every entry, bit for bit): a norm that is scaled or
+            // typed by an earlier set-up shows here even when the stop test happens to agree
+            bool same_r = reused.rnorms.size() == fr.rnorms.size(), same_e = reused.errs.size() == fr.errs.size();
+            for (size_t k = 0; same_r && k < fr.rnorms.size(); k++)
+                same_r = same_bits(reused.rnorms[k], fr.rnorms[k]);
+            for (size_t k = 0; same_e && k < fr.errs.size(); k++)
+                same_e = same_bits(reused.errs[k].first, fr.errs[k].first) && same_bits(reused.errs[k].second, fr.errs[k].second);
+            c.obs.require("residual_history_equals_fresh", same_r, cls);
+            c.obs.require("error_history_equals_fresh", same_e, cls);
         }
         c.obs.info.num("last_solution_maxdiff", maxdiff);
     }
